@@ -426,7 +426,10 @@ def dlClassT (parent d : Deadline) (tMs : Int) : String :=
 def dlViolates (impl : String) (parentMs : Option Int) (wraps : Bool) (tMs : Int) : Bool :=
   if impl = "other" || impl = "late" then true
   else if impl = "none" then wraps || parentMs.isSome
-  else if impl = "parent" then false
+  else if impl = "parent" then
+    -- exactly the caller's deadline: fine unless that is LATER than now + t (the harness's caller deadlines are at least
+    -- 5 s away from every timeout in play, or equal to one)
+    (match parentMs with | some p => wraps && p > tMs + 4000 | none => true)
   else match (impl.splitOn "@") with
     | ["window", x] => match x.toInt? with
       | some xm => !wraps || xm > tMs || (match parentMs with | some p => p < xm | none => false)
